@@ -25,7 +25,8 @@ FUNCS = {"exp": lambda x: H("exp", x), "log": lambda x: H("log", x), "sqrt": lam
 VARS = {"Tgas": Fraction(123, 7), "T32": Fraction(11, 3), "invT": Fraction(2, 9), "Te": Fraction(5, 13), "user_a": Fraction(17, 4),
         "nH": Fraction(1000, 3)}
 NUMS = [("1.5d0", Fraction(3, 2)), ("2d-3", Fraction(2, 1000)), ("1.d3", Fraction(1000)), ("3.0", Fraction(3)), ("4.0e2", Fraction(400)),
-        ("2.5d-1", Fraction(1, 4)), ("7", Fraction(7)), ("1.0d-09", Fraction(1, 10**9)), ("3d03", Fraction(3000)), ("1.2d01", Fraction(12))]
+        ("2.5d-1", Fraction(1, 4)), ("7", Fraction(7)), ("1.0d-09", Fraction(1, 10**9)), ("3d03", Fraction(3000)), ("1.2d01", Fraction(12)),
+        ("1d0", Fraction(1)), ("3d0", Fraction(3)), ("2d0", Fraction(2)), ("4d00", Fraction(4))]
 
 
 def gen(rnd, depth):
@@ -79,6 +80,10 @@ DIRECTED = [
     ("(Tgas/1.d3)**0.2d0", FUNCS["pow"](VARS["Tgas"] / 1000, Fraction(1, 5)), "bundled-style-power"),
     ("1.0d-09*Tgas", Fraction(1, 10**9) * VARS["Tgas"], "zero-padded-exponent"),
     ("3d03 + 1.2d01", Fraction(3012), "zero-padded-exponent"),
+    # double precision literals with an integer mantissa stay floating point: 1d0/3d0 is one third, not C's integer quotient 0
+    ("1d0/3d0*Tgas", Fraction(1, 3) * VARS["Tgas"], "double-literal-quotient"),
+    ("Tgas**(1d0/3d0)", FUNCS["pow"](VARS["Tgas"], Fraction(1, 3)), "double-literal-quotient"),
+    ("(1d0/2d0)*n(idx_H)", Fraction(1, 2) * Fraction(29, 5), "double-literal-quotient"),
 ]
 
 
@@ -128,7 +133,7 @@ def oracle(tier, seed):
             else:
                 c = translate([t]).reaction_list[0].rateexpr()
         except Exception as e:
-            if kind == "generated" or kind in ("nested-quotient", "bundled-style-power", "zero-padded-exponent"):
+            if kind == "generated" or kind in ("nested-quotient", "bundled-style-power", "zero-padded-exponent", "double-literal-quotient"):
                 V(f"rejected-grammar-expression: {t!r}: {type(e).__name__}: {str(e)[:100]}")
             continue      # rejected at generation time: allowed for expressions the translator does not accept
         if len(samples) < 5:
@@ -161,5 +166,5 @@ def oracle(tier, seed):
             pass
     fresh_species_state()
     return {"cases": cases, "distinct": cases, "violations": viol, "samples": samples,
-            "bound": f"{n} random expressions derivable from the translator's grammar to depth <= 3 (d/e exponents, + - * / **, parentheses, exp/log/sqrt, n(idx_H), @common variable) + 7 directed expressions + 4 abundance references",
+            "bound": f"{n} random expressions derivable from the translator's grammar to depth <= 3 (d/e exponents, + - * / **, parentheses, exp/log/sqrt, n(idx_H), @common variable) + 10 directed expressions + 4 abundance references",
             "rule": "each expression is one case; exact rational evaluation with pow/exp/log/sqrt as shared injective functions"}
